@@ -29,6 +29,7 @@ type Profile struct {
 	EvidencePct int            // per block
 	FatalEvPct  int            // share of evidence that is expected to kill the node (old / tombstoned / unknown)
 	OldEvPct    int            // share of evidence aged beyond MaxEvidenceAge
+	NearOldEvPct int           // (sub-second histories) share of evidence older than MaxEvidenceAge by less than a second
 	AwardPct    int
 	BurnPct     int
 	ReadsPct    int // chance of a read-only call after each call
@@ -48,6 +49,7 @@ type Profile struct {
 	BlockMaxGas       int64 // > 0: block gas limit of the consensus parameters
 	EdgeAddresses     bool // two of the genesis validators have addresses ending in 0xFF and 0x00
 	UnstakingTimeChanges bool // governance changes pos/UnstakingTime (both directions) while validators are unstaking
+	ImpliedSupply     bool // the genesis file states no supply (auth sums the accounts in the store; pos is initialised first) and repeats an account entry
 	RichGenesis       bool // genesis validators in jail / unstaking (with signing infos and queue entries), as in an exported state
 	ExportedGenesis   bool // ... and the pos genesis is marked "exported" with previous-state powers
 	HugeFeeMultipliers bool // governance may set a per-message fee multiplier whose product with the base fee overflows int64
@@ -191,7 +193,7 @@ func NewWorld(seed uint64, p Profile, idx *TxIndex) *World {
 	}
 	min := g.PosParams.StakeMinimum
 	for i, a := range w.All {
-		if p.Whale && i == 2 {
+		if p.Whale && i == p.GenesisVals+1 { // an ed25519 key that is not a genesis validator
 			g.Accounts = append(g.Accounts, GenAccount{Actor: a, BalanceBig: new(big.Int).Lsh(big.NewInt(1), 90)})
 			w.WhaleActor = a
 			continue
@@ -208,6 +210,13 @@ func NewWorld(seed uint64, p Profile, idx *TxIndex) *World {
 			ga.Extra = 1000000
 		}
 		g.Accounts = append(g.Accounts, ga)
+	}
+	if p.ImpliedSupply {
+		g.OmitSupply = true
+		// an address listed twice (the later entry wins)
+		dup := g.Accounts[r.Intn(len(g.Accounts))]
+		dup.Balance, dup.BalanceBig = 700000000+r.Int63n(1000000000), nil
+		g.Accounts = append(g.Accounts, dup)
 	}
 	if p.ForeignKeyAccount && len(w.Eds) > 3 {
 		// a funded account at an address nobody holds a key for, with the attacker's public key recorded in it
@@ -264,7 +273,7 @@ func NewWorld(seed uint64, p Profile, idx *TxIndex) *World {
 }
 
 func (w *World) Start(db dbm.DB) *Call {
-	spec := &InitSpec{AppState: w.Cfg.AppState(), CustomPos: w.P.CustomPos, Pruning: w.P.Pruning, MaxGas: -1, SecpValidators: w.P.SecpValidators, Trace: w.P.Trace}
+	spec := &InitSpec{AppState: w.Cfg.AppState(), CustomPos: w.P.CustomPos, PosFirst: w.P.ImpliedSupply, Pruning: w.P.Pruning, MaxGas: -1, SecpValidators: w.P.SecpValidators, Trace: w.P.Trace}
 	if w.P.BlockMaxGas > 0 {
 		spec.MaxGas = w.P.BlockMaxGas
 	}
@@ -273,6 +282,12 @@ func (w *World) Start(db dbm.DB) *Call {
 		// read-only traffic before the first block (a node answers queries as soon as it is up)
 		for k := 0; k < 2 && w.R.Chance(w.P.ReadsPct); k++ {
 			w.RandomRead()
+		}
+		if w.R.Chance(w.P.ReadsPct) {
+			// a module query while the genesis state is still uncommitted
+			a := w.All[w.R.Intn(len(w.All))]
+			data := posTypes.ModuleCdc.MustMarshalJSON(posTypes.QueryAccountBalanceParams{Address: a.Addr})
+			w.Env.Query(&QuerySpec{Path: "/custom/pos/account_balance", Data: hx(data)})
 		}
 	}
 	return ic
@@ -432,7 +447,11 @@ func (w *World) finishBeginSpec(e *Env, h int64, cp CurParams) *BeginSpec {
 				if a == w.Anchor.AddrHex() && !w.AnchorMayMiss {
 					signed = true
 				}
-				b.Votes = append(b.Votes, VoteSpec{Addr: a, Power: v.VotingPower, Signed: signed})
+				pw := v.VotingPower
+				if !signed && w.R.Chance(10) {
+					pw = w.R.PickI64(10000000000000, 9223372036855, 1<<53) // a reported power whose token value does not fit 64 bits
+				}
+				b.Votes = append(b.Votes, VoteSpec{Addr: a, Power: pw, Signed: signed})
 			}
 		}
 	}
@@ -511,10 +530,18 @@ func (w *World) pickEvidence(h int64, cp CurParams) *EvidSpec {
 			}
 		}
 		ev := &EvidSpec{Addr: a, Power: pw, Height: eh, Time: e.Chain.Times[eh].Unix(), TimeNs: int64(e.Chain.Times[eh].Nanosecond()), Total: vs.TotalVotingPower()}
+		if w.P.SubSecond && w.R.Chance(w.P.NearOldEvPct) {
+			// older than the maximum age by less than a second (not gated by FatalEvPct: on the unchanged tree the node
+			// stops here, which ends the history)
+			t := w.Now.Add(-cp.MaxEvAge - time.Duration(w.R.PickI64(1, 500000000, 999999999)))
+			ev.Time, ev.TimeNs = t.Unix(), int64(t.Nanosecond())
+			return ev
+		}
 		if w.R.Chance(w.P.OldEvPct) {
 			t := w.Now.Add(-cp.MaxEvAge - time.Duration(1+w.R.Intn(3))*time.Second)
-			if w.P.SubSecond && w.R.Bool() {
-				t = w.Now.Add(-cp.MaxEvAge - time.Nanosecond) // one nanosecond too old
+			if w.P.SubSecond && w.R.Chance(70) {
+				// too old by a nanosecond, half a second, almost a second
+				t = w.Now.Add(-cp.MaxEvAge - time.Duration(w.R.PickI64(1, 500000000, 999999999)))
 			}
 			ev.Time, ev.TimeNs = t.Unix(), int64(t.Nanosecond())
 		} else if w.R.Chance(30) {
